@@ -1,0 +1,52 @@
+//go:build verif
+
+// Contracts for the verification harness in /verif (comment-only file; it is
+// never compiled into a normal build).  Syntax: see /verif/DESIGN.md §3.
+
+package syntax
+
+// ---------------------------------------------------------------- C15 semantic equivalence
+//
+// fn(F, a, b) is the deterministic abstraction of F: what F returns on (a, b).
+// Each clause of the relation must compare BOTH operands on the fields the
+// property lists.
+
+//@ iface syntax.Exp.equal property C15
+//@   pure
+//@   opt deterministic on
+
+//@ iface syntax.Callable.EquivalentTo property C15
+//@   pure
+//@   opt deterministic on
+
+//@ func syntax.BindStm.Equals property C15
+//@   pure
+//@   opt deterministic on
+//@   ensures @nil binding == nil ==> result == (other == nil)
+//@   ensures @othernil binding != nil && other == nil ==> !result
+//@   ensures @id result && binding != nil ==> binding.Id == other.Id
+//@   ensures @expnil result && binding != nil ==> (isnil(binding.Exp) <==> isnil(other.Exp))
+//@   ensures @exp result && binding != nil && !isnil(binding.Exp) ==> isnil(fn(syntax.Exp.equal, binding.Exp, other.Exp))
+//@   ensures @complete binding != nil && other != nil && binding.Id == other.Id && !isnil(binding.Exp) && !isnil(other.Exp) && isnil(fn(syntax.Exp.equal, binding.Exp, other.Exp)) ==> result
+
+//@ func syntax.Modifiers.EquivalentTo property C15
+//@   pure
+//@   opt deterministic on
+//@   opt replay modifiers
+//@   let dm = (mods != nil && mods.Bindings != nil && mods.Bindings.Table != nil) ? mods.Bindings.Table["disabled"] : nil
+//@   let do = (other != nil && other.Bindings != nil && other.Bindings.Table != nil) ? other.Bindings.Table["disabled"] : nil
+//@   ensures @local result ==> (mods != nil && mods.Local) == (other != nil && other.Local)
+//@   ensures @preflight result ==> (mods != nil && mods.Preflight) == (other != nil && other.Preflight)
+//@   ensures @dispresence result ==> (dm == nil) == (do == nil)
+//@   ensures @disequal result && dm != nil && mods != nil && other != nil ==> fn(syntax.BindStm.Equals, dm, do)
+//@   ensures @cosmetic (mods != nil && mods.Local) == (other != nil && other.Local) && (mods != nil && mods.Preflight) == (other != nil && other.Preflight) && dm == nil && do == nil ==> result
+//@   ensures @complete mods != nil && other != nil && mods.Local == other.Local && mods.Preflight == other.Preflight && dm != nil && do != nil && fn(syntax.BindStm.Equals, dm, do) ==> result
+//@   probe modsNil: mods == nil
+//@   probe otherNil: other == nil
+//@   probe modsLocal: mods != nil && mods.Local
+//@   probe otherLocal: other != nil && other.Local
+//@   probe modsPre: mods != nil && mods.Preflight
+//@   probe otherPre: other != nil && other.Preflight
+//@   probe modsDis: dm != nil
+//@   probe otherDis: do != nil
+//@   probe disEq: fn(syntax.BindStm.Equals, dm, do)
